@@ -37,6 +37,7 @@ import (
 	"github.com/bokysan/socketace/v2/internal/server"
 	"github.com/bokysan/socketace/v2/internal/util/cert"
 	"github.com/jessevdk/go-flags"
+	"github.com/miekg/dns"
 	"github.com/xtaci/kcp-go/v5"
 )
 
@@ -317,6 +318,50 @@ func recordFirst(l net.Listener) chan []byte {
 	return ch
 }
 
+// probeDns finds out from outside what serves DNS at host:port: "tcp" (a TCP listener accepts; "tcp-tls" when it
+// answers a bogus TLS record with a TLS alert), "udp" (a UDP query is answered), "tcp+udp", or "none".
+func probeDns(at string) string {
+	if at == "" {
+		return "none"
+	}
+	tcp := ""
+	if c, err := net.DialTimeout("tcp", at, 500*time.Millisecond); err == nil {
+		tcp = "tcp"
+		_ = c.SetDeadline(time.Now().Add(300 * time.Millisecond))
+		_, _ = c.Write(tlsProbe)
+		buf := make([]byte, 8)
+		if n, _ := c.Read(buf); n > 0 && buf[0] == 0x15 {
+			tcp = "tcp-tls"
+		}
+		_ = c.Close()
+	}
+	udp := ""
+	q := new(dns.Msg)
+	q.SetQuestion("probe.invalid.", dns.TypeTXT)
+	if wire, err := q.Pack(); err == nil {
+		for try := 0; try < 2 && udp == ""; try++ {
+			if c, err := net.DialTimeout("udp", at, 500*time.Millisecond); err == nil {
+				_ = c.SetDeadline(time.Now().Add(700 * time.Millisecond))
+				_, _ = c.Write(wire)
+				buf := make([]byte, 512)
+				if n, err := c.Read(buf); err == nil && n >= 12 && buf[0] == wire[0] && buf[1] == wire[1] {
+					udp = "udp"
+				}
+				_ = c.Close()
+			}
+		}
+	}
+	switch {
+	case tcp != "" && udp != "":
+		return tcp + "+udp"
+	case tcp != "":
+		return tcp
+	case udp != "":
+		return "udp"
+	}
+	return "none"
+}
+
 type pipeEnd struct {
 	io.Reader
 	io.Writer
@@ -334,8 +379,26 @@ func (c *schemeComp) runServer(obj interface{}) string {
 		}
 		lt, secure := server.VerifC18DnsState(s)
 		sch := s.Address.Scheme
+		// what is REALLY listening: the socket miekg/dns bound (accessor) and, independently, a probe from outside
+		// (TCP dial + first wire bytes, UDP query + reply) against the address of that socket
+		bound, at, _ := server.VerifC18DnsListening(s)
+		for i := 0; i < 60 && at == ""; i++ { // ListenAndServe runs in a goroutine: give a loaded machine time to bind
+			time.Sleep(50 * time.Millisecond)
+			bound, at, _ = server.VerifC18DnsListening(s)
+		}
+		seen := probeDns(at)
+		for i := 0; i < 3 && seen == "none" && at != ""; i++ { // bound but no answer yet: probe again
+			time.Sleep(200 * time.Millisecond)
+			seen = probeDns(at)
+		}
+		if bound == "" {
+			bound = "none"
+		}
 		_ = s.Shutdown()
-		return fmt.Sprintf("dns,%s,%s,%v", strings.TrimPrefix(lt, "*"), sch, secure)
+		if seen != bound && !(bound == "tcp" && seen == "tcp-tls") {
+			seen = "bound-" + bound + "-but-answers-" + seen
+		}
+		return fmt.Sprintf("dns,%s,%s,%v,%s", strings.TrimPrefix(lt, "*"), sch, secure, seen)
 	case *server.SocketServer:
 		if err := s.Startup(server.Channels{}); err != nil {
 			return "error"
@@ -585,35 +648,36 @@ func (c *schemeComp) Exec(op string) (res, mon, class string, nontrivial bool) {
 type docEntry struct {
 	typ string // concrete Go type the documentation implies
 	tls bool   // documented as an encrypted transport
+	net string // documented network of the listener where the scheme's base word does not already name it ("" = lexical rule)
 }
 
 // README.md ("Servers", "Channels", "Client"): scheme -> transport, per position.  Hand-written, like
 // SA.Spec.documented in Lean (lean/SA/Props/C18.lean); kept in the same order.
 var documented = map[string]map[string]docEntry{
 	"server": {
-		"http": {"*server.HttpServer", false}, "https": {"*server.HttpServer", true},
-		"tcp": {"*server.SocketServer", false}, "tcp+tls": {"*server.SocketServer", true},
-		"stdin": {"*server.IoServer", false}, "stdin+tls": {"*server.IoServer", true},
-		"unix": {"*server.SocketServer", false}, "unix+tls": {"*server.SocketServer", true},
-		"unixpacket": {"*server.SocketServer", false},
-		"udp":        {"*server.PacketServer", false}, "unixgram": {"*server.PacketServer", false},
-		"dns+udp": {"*server.DnsServer", false}, "dns+tcp": {"*server.DnsServer", false},
+		"http": {"*server.HttpServer", false, ""}, "https": {"*server.HttpServer", true, ""},
+		"tcp": {"*server.SocketServer", false, ""}, "tcp+tls": {"*server.SocketServer", true, ""},
+		"stdin": {"*server.IoServer", false, ""}, "stdin+tls": {"*server.IoServer", true, ""},
+		"unix": {"*server.SocketServer", false, ""}, "unix+tls": {"*server.SocketServer", true, ""},
+		"unixpacket": {"*server.SocketServer", false, ""},
+		"udp":        {"*server.PacketServer", false, ""}, "unixgram": {"*server.PacketServer", false, ""},
+		"dns+udp": {"*server.DnsServer", false, "udp"}, "dns+tcp": {"*server.DnsServer", false, "tcp"},
 	},
 	"channel": {
-		"tcp": {"*server.NetworkChannel", false}, "unix": {"*server.NetworkChannel", false},
-		"unixpacket": {"*server.NetworkChannel", false},
+		"tcp": {"*server.NetworkChannel", false, ""}, "unix": {"*server.NetworkChannel", false, ""},
+		"unixpacket": {"*server.NetworkChannel", false, ""},
 	},
 	"upstream": {
-		"tcp": {"*upstream.Socket", false}, "tcp+tls": {"*upstream.Socket", true},
-		"stdin": {"*upstream.InputOutput", false}, "stdin+tls": {"*upstream.InputOutput", true},
-		"unix": {"*upstream.Socket", false}, "unix+tls": {"*upstream.Socket", true},
-		"http": {"*upstream.Http", false}, "https": {"*upstream.Http", true},
-		"unixgram": {"*upstream.Packet", false}, "udp": {"*upstream.Packet", false},
-		"dns": {"*upstream.Dns", false},
+		"tcp": {"*upstream.Socket", false, ""}, "tcp+tls": {"*upstream.Socket", true, ""},
+		"stdin": {"*upstream.InputOutput", false, ""}, "stdin+tls": {"*upstream.InputOutput", true, ""},
+		"unix": {"*upstream.Socket", false, ""}, "unix+tls": {"*upstream.Socket", true, ""},
+		"http": {"*upstream.Http", false, ""}, "https": {"*upstream.Http", true, ""},
+		"unixgram": {"*upstream.Packet", false, ""}, "udp": {"*upstream.Packet", false, ""},
+		"dns": {"*upstream.Dns", false, ""},
 	},
 	"listener": {
-		"tcp": {"*listener.SocketListener", false}, "unix": {"*listener.SocketListener", false},
-		"stdin": {"*listener.InputOutputListener", false},
+		"tcp": {"*listener.SocketListener", false, ""}, "unix": {"*listener.SocketListener", false, ""},
+		"stdin": {"*listener.InputOutputListener", false, ""},
 	},
 }
 
@@ -695,6 +759,48 @@ func runTls(r string) string {
 	return ""
 }
 
+// observed network of what was really started: the socket's own network for socket / packet servers and listeners,
+// the probed network for DNS servers ("" = this kind of run does not observe one)
+func runNet(r string) string {
+	f := strings.Split(r, ",")
+	switch {
+	case f[0] == "sock" && len(f) >= 2, f[0] == "listen" && len(f) >= 2:
+		return f[1]
+	case f[0] == "packet" && len(f) >= 3:
+		return f[2]
+	case f[0] == "packet" && len(f) == 2:
+		return f[1]
+	case f[0] == "dns" && len(f) >= 5:
+		return f[4]
+	}
+	return ""
+}
+
+// network the scheme names lexically: the base word for sockets, udp for the udp family, and for DNS the part after
+// the '+' (tcp when the scheme says +tcp, else udp), with "-tls" when the scheme says TLS
+func lexNet(scheme string) string {
+	base := scheme
+	if i := strings.IndexByte(base, '+'); i >= 0 {
+		base = base[:i]
+	}
+	switch base {
+	case "tcp", "unix", "unixpacket", "unixgram":
+		return base
+	case "udp", "udp4", "udp6":
+		return "udp"
+	case "dns":
+		n := "udp"
+		if strings.Contains(scheme, "+tcp") {
+			n = "tcp"
+		}
+		if lexTls(scheme) {
+			n += "-tls"
+		}
+		return n
+	}
+	return ""
+}
+
 // address the op puts in the given position; strict = the op is written the documented way apart from
 // the scheme, so that rejecting a documented scheme would be a fault of the scheme handling
 func opAddress(pos, form, kind, val string) (addr, name string, hasAddr, strict bool) {
@@ -768,6 +874,15 @@ func (c *schemeComp) monitor(pos, form, kind, val, typ, scheme, name, r string) 
 		}
 		if (obs == "tls") != want {
 			return fmt.Sprintf("%s scheme %q runs %s transport (%s)", pos, ls, obs, r)
+		}
+	}
+	if obs := runNet(r); obs != "" && obs != "none" || strings.HasPrefix(r, "dns,") {
+		want := lexNet(ls)
+		if isDoc && doc.net != "" {
+			want = doc.net
+		}
+		if want != "" && obs != want {
+			return fmt.Sprintf("%s scheme %q: construction and start succeeded but what really listens is %q, documented/named %q (%s)", pos, ls, obs, want, r)
 		}
 	}
 	if r == "error" && isDoc {
@@ -896,6 +1011,15 @@ func (c *schemeComp) Gen(r *Rand, tier string, emit func(op string)) {
 					}
 					op(pos, form, "str", wrap(pos, sch+tail), runOf(pos, sch, tail))
 				}
+			}
+		}
+	}
+	// 1b. every DNS server scheme in every input form is taken into Startup and probed from outside (what really
+	// listens: tcp / udp / tcp-tls); each start costs ~1.3 s (the communicator waits 1 s for ListenAndServe to fail)
+	for _, form := range forms["server"] {
+		for _, sch := range schemePool {
+			if runnable(sch, tailIP) == "dns" {
+				op("server", form, "str", sch+tailIP, "1")
 			}
 		}
 	}
